@@ -35,7 +35,12 @@ def pairs {α} : List α → List (α × α)
   | a :: l => l.map (fun b => (a, b)) ++ pairs l
 
 /-- Executable reading of the property statement, independent of `assign`.
-Returns the first clause the observed result violates. -/
+Returns the first clause the observed result violates.
+Unconditional: length/targets/configured hostnames kept; a new hostname is generated or reusable and
+goes to a tunnel with a target; no request while a reusable name is left.
+Under the server contracts (registered is a set, generated names are new), failing requests included:
+no two tunnels share a hostname unless both were configured with it; at most as many tunnels with a
+target stay unnamed as requests failed (none when no request fails). -/
 def specCheck (ts : List Tunnel) (reg : Option (List String)) (fr : List (Option String))
     (out : List Tunnel) (calls : Nat) : Option String :=
   let z := ts.zip out
@@ -52,14 +57,23 @@ def specCheck (ts : List Tunnel) (reg : Option (List String)) (fr : List (Option
         !(p.1.target ≠ "" && (reusable.elem p.2.host || freshNames.elem p.2.host))) then
       some "a hostname was assigned that is neither generated nor a reusable (registered, dot-free, unused) one, or to a tunnel without target"
     else
-      -- the property's quantifier: registered is a set, generated names are new, no request fails
+      -- server-side contracts (hypotheses of `distinct`): registered is a set, generated names are new.
+      -- Failing requests are INSIDE this quantifier: a failed request must leave its tunnel unnamed,
+      -- it never entitles two tunnels to one hostname.
       let needyN := (ts.filter fun t => t.target ≠ "" && t.host = "").length
-      let inQ := decide r.Nodup && decide freshNames.Nodup && fr.all (·.isSome) &&
-        freshNames.all (fun n => !r.elem n && !cfg.elem n) && decide (needyN ≤ reusable.length + fr.length)
-      if !inQ then none
-      else if out.any (fun t => t.target ≠ "" && t.host = "") then some "a tunnel with a target has no hostname"
-      else if (pairs z).any (fun pq => pq.1.2.host = pq.2.2.host && !(pq.1.2 = pq.1.1 && pq.2.2 = pq.2.1)) then
+      let supplyOK := decide r.Nodup && decide freshNames.Nodup &&
+        freshNames.all (fun n => !r.elem n && !cfg.elem n)
+      -- additionally no request fails (script long enough, no failing entry)
+      let inQ := supplyOK && fr.all (·.isSome) && decide (needyN ≤ reusable.length + fr.length)
+      -- requests that were made and failed: the first `calls` script entries that are failures
+      -- (an exhausted script fails too)
+      let failed := calls - ((fr.take calls).filterMap id).length
+      let unnamed := (out.filter fun t => t.target ≠ "" && t.host = "").length
+      if inQ && out.any (fun t => t.target ≠ "" && t.host = "") then some "a tunnel with a target has no hostname"
+      else if supplyOK && (pairs z).any (fun pq => pq.1.2.host = pq.2.2.host && !(pq.1.2 = pq.1.1 && pq.2.2 = pq.2.1)) then
         some "two tunnels share a hostname that was not configured on both"
+      else if supplyOK && decide (unnamed > failed) then
+        some "more tunnels with a target are left without hostname than hostname requests failed"
       else if calls > 0 && reusable.any (fun a => !(out.map (·.host)).elem a) then
         some "a new hostname was requested while a reusable one was left unused"
       else none
